@@ -518,7 +518,7 @@ def r6_lambdas(body, log, ret_macros=True):
     names = []
     n = 0
     while True:
-        m = re.search(r"\bauto\s+(\w+)\s*=\s*\[[&=]?\w*\]\s*\(", body)   # [&], [&name], [=], []
+        m = re.search(r"\bauto\s+(\w+)\s*=\s*\[[^\[\]]*\]\s*\(", body)   # any capture list: [&], [&name], [=], [], [&x, this]
         if not m:
             break
         name = m.group(1)
@@ -526,8 +526,8 @@ def r6_lambdas(body, log, ret_macros=True):
         q = match_close(body, p, "(", ")")
         args = [a.strip().split()[-1] for a in body[p + 1:q].split(",") if a.strip()]
         j = q + 1
-        while body[j].isspace():
-            j += 1
+        mtail = re.match(r"\s*(?:mutable\s*)?(?:->\s*[\w:]+\s*)?", body[j:])   # optional `mutable`, optional `-> T`
+        j += mtail.end()
         if body[j] != "{":
             raise ExtractionError(f"{log.fn}: R6 lambda {name} has an unexpected form")
         e = match_close(body, j)
@@ -541,6 +541,10 @@ def r6_lambdas(body, log, ret_macros=True):
         if mret and ";" not in mret.group(1):
             expr = " ".join(mret.group(1).split())
             macro = f"#define {name}({', '.join(args)}) ({expr})"
+        elif re.search(r"\breturn\b", inner):
+            # a statement lambda with an inner `return` cannot be a macro (the return would leave the enclosing function):
+            # it may only be passed around, never expanded; its body can be put under contract as a piece of kind 'lambda'
+            macro = f"#define {name}(...) VP_LAMBDA_WITH_INNER_RETURN_cannot_be_expanded_as_a_macro"
         else:
             stm = " ".join(inner.split())
             macro = f"#define {name}({', '.join(args)}) do {{ {stm} }} while (0)"
@@ -794,6 +798,14 @@ def extract_fn(fn, mutate=False):
         elif kind == "bare_block":      # the n-th bare {...} block among the statements of a loop body
             _, lb = loop_body(whole, pc["in_loop"])
             body = bare_block(lb, pc["ordinal"])
+        elif kind == "lambda":         # the body of `auto <name> = [..](..) [-> T] { ... };` as a function of its own
+            ml = re.search(r"\bauto\s+" + re.escape(pc["name"]) + r"\s*=\s*\[[^\[\]]*\]\s*\(", whole)
+            if not ml:
+                raise ExtractionError(f"{fn.name}: lambda {pc['name']} not found")
+            pl = whole.index("(", ml.end() - 1)
+            ql = match_close(whole, pl, "(", ")")
+            jl = whole.index("{", ql)
+            body = whole[jl:match_close(whole, jl) + 1]
         elif kind == "slice":
             body = slice_between(whole, pc["first"], pc["last"], pc.get("nth", 0), pc.get("after", False))   # wrapped in braces below
         else:
